@@ -37,7 +37,8 @@ def cases(seed, tier):
         out.append({"spec": spec, "backend": be[k % len(be)], "solver": ["bwd_euler", "crank_nicolson"][k % 2],
                     "np_stim": bool(k % 3 == 0), "eager": bool(k % 4 == 0), "static_and_data": bool(k % 3 == 1),
                     "clamp": bool(k % 5 == 2), "batch": int(rng.integers(1, 5)), "tmax": [None, "short", "long"][k % 3],
-                    "pstate": bool(k % 2 == 0), "bseed": int(rng.integers(0, 2**31))})
+                    "pstate": bool(k % 2 == 0), "bseed": int(rng.integers(0, 2**31)),
+                    "no_input": bool(k % 7 == 5)})  # no stimulus, no clamp: the duration comes from t_max alone
     return out
 
 
@@ -92,6 +93,9 @@ def run_case(case, rec):
     data = stim[n_static:] if case["static_and_data"] else []
     if not case["static_and_data"] and case["bseed"] % 2:
         static, data = [], stim  # everything data-fed
+    if case.get("no_input"):
+        static, data = [], []
+        case = dict(case, clamp=False)
     for s in static:
         w = np.asarray(s["w"])
         m.select(nodes=np.asarray(s["rows"])).stimulate(w if case["np_stim"] else jnp.asarray(w), verbose=False)
@@ -119,7 +123,7 @@ def run_case(case, rec):
         d = None
         for s in data:
             d = m.select(nodes=np.asarray(s["rows"])).data_stimulate(jnp.asarray(np.asarray(s["w"])) * scale, d)
-        if syn_view_rows is not None and (data or not static):
+        if syn_view_rows is not None and (data or not static) and not case.get("no_input"):
             Tn = len(stim[0]["w"][0])
             d = m.select(nodes=np.asarray(syn_view_rows)).data_stimulate(jnp.full((len(syn_view_rows), Tn), 0.01) * scale, d)
         return d
